@@ -343,7 +343,9 @@ func (r *Runner) builtin(ctx context.Context, pos syntax.Pos, name string, args 
 		if len(args) == 0 {
 			// Note that "wait" without arguments always returns exit status zero.
 			for _, bg := range r.bgProcs {
+				verifYield("wait.before", r)
 				<-bg.done
+				verifYield("wait.after", r)
 			}
 			break
 		}
@@ -354,7 +356,9 @@ func (r *Runner) builtin(ctx context.Context, pos syntax.Pos, name string, args 
 				return failf(1, "wait: pid %s is not a child of this shell\n", arg)
 			}
 			bg := r.bgProcs[pid-1]
+			verifYield("wait.before", r)
 			<-bg.done
+			verifYield("wait.after", r)
 			exit = *bg.exit
 		}
 	case "builtin":
@@ -1063,6 +1067,8 @@ func (r *Runner) readLine(ctx context.Context, raw bool) ([]byte, error) {
 
 	var line []byte
 	esc := false
+	verifYield("read.before", r)
+	defer verifYield("read.after", r)
 
 	stopc := make(chan struct{})
 	stop := context.AfterFunc(ctx, func() {
